@@ -1,5 +1,7 @@
 """One simulated run = one seed: draw a profile, generate-and-execute a program, judge it."""
+import contextlib
 import hashlib
+import os
 import random
 
 from . import lib  # noqa: F401  (imports the library under test)
@@ -95,7 +97,17 @@ def summarise(prop, w, steps, post=()):
     return nontrivial, sig, states, tri
 
 
+def quiet():
+    """The library reports some conditions with print(); keep that out of the checks' output."""
+    return contextlib.redirect_stdout(open(os.devnull, 'w'))
+
+
 def run_one(prop, verif_seed, i, keep_ops=False, max_steps=None, banned=(), tier='quick'):
+    with quiet():
+        return _run_one(prop, verif_seed, i, keep_ops, max_steps, banned, tier)
+
+
+def _run_one(prop, verif_seed, i, keep_ops=False, max_steps=None, banned=(), tier='quick'):
     seed = seed_for(verif_seed, prop, i)
     rng = random.Random(seed)
     faults = faults_enabled(i)
@@ -141,6 +153,11 @@ def replay_ops(prop, ops, prelude=()):
     of op lists that are executed first, each in its own world, in this same process: the runs
     that preceded the failing one in its worker, needed only when the library under test carries
     process-global state from one run into the next."""
+    with quiet():
+        return _replay_ops(prop, ops, prelude)
+
+
+def _replay_ops(prop, ops, prelude=()):
     for pl in prelude:
         wp = World([], None)
         wp.reset_globals()
